@@ -6,6 +6,9 @@
 //                    t target queue #5  T target queue #6  e enter  l leave  n notify_f (on the notification queue)
 //                    W _os_object_retain_weak  r dispatch_retain  R dispatch_release  i/j _dispatch_retain x1/x2  I/J _dispatch_release x1/x2
 //                    a dispatch_group_async_f (enter here, leave on a worker)   w dispatch_group_wait(NOW)
+//                    A dispatch_group_async_f of a block that itself does dispatch_group_async_f + notify_f on the group
+//                    B the same, the application releasing its reference before the block runs (the block uses the group
+//                      under its own outstanding enter only)
 //       output: "G" then per call " xref ref nqref delivered" (-77 -77 when the object's memory was released), then
 //               " | fin_runs fin_ctx_id fin_queue_id notif_delivered crashes"
 //     L <ops>        lane script on a serial queue q (with helper objects):
@@ -45,6 +48,11 @@ static void finalizer(void *ctx) {
 static void notif_fn(void *ctx) { (void)ctx; atomic_fetch_add(&delivered, 1); atomic_fetch_add(&progress, 1); }
 static void item_fn(void *ctx) { (void)ctx; atomic_fetch_add(&items_run, 1); atomic_fetch_add(&progress, 1); }
 static void work_fn(void *ctx) { (void)ctx; usleep(200); atomic_fetch_add(&progress, 1); }
+// a group block that uses its group from inside, possibly after the application's last dispatch_release: a nested
+// dispatch_group_async_f and a notification, both made under the block's own outstanding enter
+static dispatch_group_t blk_g;
+static void inner_fn(void *ctx) { (void)ctx; atomic_fetch_add(&progress, 1); }
+static void using_fn(void *ctx) { (void)ctx; dispatch_group_async_f(blk_g, tq6, NULL, inner_fn); dispatch_group_notify_f(blk_g, nq, NULL, notif_fn); atomic_fetch_add(&progress, 1); }
 // the value stored under the key is the number of the script that stored it: a destructor that runs late (it is submitted
 // asynchronously when the queue is disposed) is counted for its own script, never for a later one
 static _Atomic int dtor_by_script[1 << 16]; static int lane_no;
@@ -109,7 +117,7 @@ static int parse_exp(const char *e, int k, int out[4]) {
 static void run_group_script(const char *ops, const char *exp) {
 	dispatch_group_t g = dispatch_group_create(); quarantined = g; atomic_store(&freed_flag, 0);
 	atomic_store(&fin_runs, 0); atomic_store(&fin_ctx_id, 0); atomic_store(&fin_queue_id, -1); atomic_store(&delivered, 0);
-	long x = 1, in = 0, enters = 0, pend = 0, asyncs = 0; int hasfin = 0, ctxid = 0;   // harness-side bookkeeping of what it holds
+	long x = 1, in = 0, enters = 0, pend = 0, asyncs = 0; int hasfin = 0, ctxid = 0, blk = 0;   // harness-side bookkeeping of what it holds
 	settle2(&nq->do_ref_cnt, NULL); int nqbase = nq->do_ref_cnt;   // groups leaked by earlier scripts with pending notifications keep theirs
 	printf("G"); int opno = 0;
 	for (const char *p = ops; *p; p++, opno++) {
@@ -124,6 +132,9 @@ static void run_group_script(const char *ops, const char *exp) {
 		case 'l': dispatch_group_leave(g); enters--; if (enters + asyncs == 0) pend = 0; break;
 		case 'n': dispatch_group_notify_f(g, nq, NULL, notif_fn); if (enters + asyncs > 0) pend++; break;
 		case 'a': dispatch_group_async_f(g, tq6, NULL, work_fn); asyncs++; break;
+		case 'A': blk_g = g; dispatch_group_async_f(g, tq6, NULL, using_fn); asyncs++; blk = 1; break;   // the block re-enters and notifies from inside
+		case 'B': blk_g = g; dispatch_suspend(tq6); dispatch_group_async_f(g, tq6, NULL, using_fn); dispatch_release(g); x--;
+			dispatch_resume(tq6); asyncs++; blk = 1; break;   // ... and runs AFTER the application's release: only its own enter keeps g alive
 		case 'w': (void)dispatch_group_wait(g, DISPATCH_TIME_NOW); break;
 		case 'W': if (_os_object_retain_weak(g->_as_os_obj)) x++; break;   // succeeds iff external references still exist
 		case 'r': dispatch_retain(g); x++; break;
@@ -134,7 +145,9 @@ static void run_group_script(const char *ops, const char *exp) {
 		case 'J': _dispatch_release_2(g); in -= 2; break;
 		}
 		if (asyncs) {   // wait until the item and the leave libdispatch performs after it are done: net effect enter + leave
-			dispatch_sync_f(tq6, NULL, nop); usleep(600); asyncs = 0; if (enters == 0) pend = 0;
+			dispatch_sync_f(tq6, NULL, nop); dispatch_sync_f(tq6, NULL, nop); usleep(600); asyncs = 0;
+			if (blk) { if (enters > 0) pend++; blk = 0; }     // the block registered one notification
+			if (enters == 0) pend = 0;
 		}
 		int alive = (x > 0) || (in > 0) || (enters > 0) || (pend > 0);
 		dispatch_sync_f(nq, NULL, nop);    // notification blocks submitted so far have run; then wait for the drainer's last release
@@ -214,14 +227,14 @@ static void run_lane_script(const char *ops, const char *exp) {
 // ------------------------------------------------------------------------------------------------ stress
 #define MAXT 6
 typedef struct { int idx, nops, round; uint64_t rng; } targ_t;
-static dispatch_group_t sg; static _Atomic long t_e; static _Atomic int registered; static pthread_barrier_t bar;
+static dispatch_group_t sg; static _Atomic int registered; static pthread_barrier_t bar;
 static inline uint64_t rnd(uint64_t *s) { uint64_t x = *s; x ^= x << 13; x ^= x >> 7; x ^= x << 17; return *s = x; }
 // The harness-side book of references of one level: low 32 bits = references owned (by "the application": nobody in
 // particular), high 32 bits = calls in progress that USE the object through one of them.  Any number of threads may be
 // inside calls through the same reference; a release takes one reference out, and while calls are in progress it never
 // takes the last one (the client contract of Model/Refcnt.v: call_guard).
 typedef _Atomic uint64_t book_t;
-static book_t bx, bi;
+static book_t bx, bi, be;   // external references, internal references, outstanding enters (an enter that has returned keeps the group alive too)
 static int borrow(book_t *b) { uint64_t v = atomic_load(b);
 	while ((uint32_t)v >= 1) if (atomic_compare_exchange_weak(b, &v, v + (1ull << 32))) return 1;
 	return 0; }
@@ -244,16 +257,18 @@ static void *stress_thr(void *a) {
 	pthread_barrier_wait(&bar);
 	for (int k = 0; k < t->nops; k++) {
 		unsigned c = (unsigned)(rnd(&r) % 100);
-		if (c >= 44 && c < 54) { if (take(&t_e, 1, 0)) { CALL(OP_LEAVE, 0); dispatch_group_leave(sg); RET(); } continue; }   // needs only its enter
+		if (c >= 44 && c < 54) { if (take_out(&be, 1)) { CALL(OP_LEAVE, 0); dispatch_group_leave(sg); RET(); } continue; }   // needs only its enter
 		if (c >= 54 && c < 62) { if (take_out(&bx, 1)) { CALL(OP_RELEASE, 0); dispatch_release(sg); RET(); } continue; }
 		if (c >= 62 && c < 68) { unsigned n = 1 + (unsigned)(rnd(&r) & 1);
 			if (take_out(&bi, n)) { CALL(OP_IRELEASE, n); if (n == 1) _dispatch_release(sg); else _dispatch_release_2(sg); RET(); } continue; }
 		// every other call USES the object through a reference somebody owns: an external one, else an internal one; several
 		// threads are routinely inside such calls through the same reference
+		// ... or under an outstanding enter only (using the group from inside a group block after the last release)
 		int viaint = 0;
-		if (((r >> 17) & 3) == 0 && borrow(&bi)) viaint = 1; else if (borrow(&bx)) viaint = 0; else if (borrow(&bi)) viaint = 1; else break;
-		book_t *bk = viaint ? &bi : &bx; int fl = viaint ? 100 : 0;
-		if (c < 24) { CALL(OP_ENTER + fl, 0); dispatch_group_enter(sg); RET(); atomic_fetch_add(&t_e, 1); }
+		if (((r >> 17) & 3) == 0 && borrow(&bi)) viaint = 1; else if (((r >> 17) & 3) == 1 && borrow(&be)) viaint = 2;
+		else if (borrow(&bx)) viaint = 0; else if (borrow(&bi)) viaint = 1; else if (borrow(&be)) viaint = 2; else break;
+		book_t *bk = viaint == 2 ? &be : viaint ? &bi : &bx; int fl = 100 * viaint;
+		if (c < 24) { CALL(OP_ENTER + fl, 0); dispatch_group_enter(sg); RET(); own(&be, 1); }
 		else if (c < 44) { CALL(OP_NOTIFY + fl, 0); atomic_fetch_add(&registered, 1); dispatch_group_notify_f(sg, nq, NULL, notif_fn); RET(); }
 		else if (c < 78) { if (!viaint) { CALL(OP_RETAIN, 0); dispatch_retain(sg); RET(); own(&bx, 1); } }
 		else if (c < 90) { int n = 1 + (int)(rnd(&r) & 1); CALL(OP_IRETAIN + fl, n); if (n == 1) _dispatch_retain(sg); else _dispatch_retain_2(sg); RET(); own(&bi, n); }
@@ -274,10 +289,10 @@ static void *dropper(void *a) {
 	for (;;) {
 		int did = 0;
 		if (d->kind == 0) { if (take_out(&bx, 1)) { CALL(OP_RELEASE, 0); dispatch_release(sg); RET(); did = 1; } }
-		else if (d->kind == 1) { if (take(&t_e, 1, 0)) { CALL(OP_LEAVE, 0); dispatch_group_leave(sg); RET(); did = 1; } }
+		else if (d->kind == 1) { if (take_out(&be, 1)) { CALL(OP_LEAVE, 0); dispatch_group_leave(sg); RET(); did = 1; } }
 		else { if (take_out(&bi, 1)) { CALL(OP_IRELEASE, 1); _dispatch_release(sg); RET(); did = 1; } }
 		if (!did) { if (*d->stop) { // workers are done: nothing is borrowed any more; finish what is left
-				uint64_t v = d->kind == 0 ? atomic_load(&bx) : d->kind == 2 ? atomic_load(&bi) : (uint64_t)atomic_load(&t_e);
+				uint64_t v = d->kind == 0 ? atomic_load(&bx) : d->kind == 2 ? atomic_load(&bi) : atomic_load(&be);
 				if ((uint32_t)v == 0) break; }
 			sched_yield(); }
 	}
@@ -296,7 +311,7 @@ static int stress(uint64_t seed, int rounds, int permille) {
 		sg = dispatch_group_create(); quarantined = sg; atomic_store(&freed_flag, 0);
 		atomic_store(&fin_runs, 0); atomic_store(&fin_ctx_id, 0); atomic_store(&delivered, 0); atomic_store(&registered, 0);
 		dispatch_set_context(sg, ctxbuf + 4); dispatch_set_finalizer_f(sg, finalizer);
-		atomic_store(&bx, 1); atomic_store(&bi, 0); atomic_store(&t_e, 0);
+		atomic_store(&bx, 1); atomic_store(&bi, 0); atomic_store(&be, 0);
 		// untrack the previous group, keep the queue words
 		dv_untrack_all(); dv_track(nq, 16, 2);
 		dv_track(sg, sizeof(struct dispatch_group_s), 1);
